@@ -16,7 +16,7 @@ RULE = ('reference datetimes: every weekday, month ends, 02-29, year boundaries,
         'each culture resolves by the English statement at all (the others - e.g. es "hace N días", fr "dans N jours", it "N giorni fa" - are outside the statement, '
         'which is worded for English, and are not driven). non-trivial = one resolved entity; distinct = distinct (culture, query, reference).')
 EXHAUSTIVE = False
-JOB_TIMEOUT = 3600
+JOB_TIMEOUT = 5400
 
 
 WD = dtlib.WD
